@@ -280,6 +280,199 @@ theorem binopF_cell (op : Op) (how : How) (m : Option Dir) (ch : ColHow) (a b r 
     exact cell_of_built Option.none ix (frameCols ch a b)
       (fun c t => op.appO (cellD (some op.neutral) a m c t) (cellD (some op.neutral) b m c t)) c t hc' ht
 
+/-! ### the neutral element of a missing column (column policy `'oj'`) -/
+
+/-- a column that only the LEFT frame has: the right side acts as the neutral element (0 for add/sub, 1 for mul/div),
+so the result column is the left frame's column on the joint index, for all four operators -/
+theorem oj_neutral (op : Op) (how : How) (m : Option Dir) (a b r : RFrame)
+    (ha : a.cols.length > 1) (hb : b.cols.length > 1) (h : binopF op how m .oj (.df a) (.df b) = .df r)
+    (c : String) (hca : c ∈ a.names) (hcb : c ∉ b.names) (t : Int) (ht : t ∈ r.idx) :
+    c ∈ r.names ∧ cellD Option.none r Option.none c t = cellD Option.none a m c t := by
+  have hc : c ∈ r.names := by
+    rcases binopF_columns op how m .oj a b ha hb with ⟨_, h1⟩ | ⟨_, r', h1, h2⟩
+    · rw [h1] at h; cases h
+    · rw [h1] at h; cases h; rw [h2, binopF_columns_oj]; exact .inl hca
+  refine ⟨hc, ?_⟩
+  rw [binopF_cell op how m .oj a b r ha hb h c t hc ht, cellD_not_mem _ b m c t hcb, appO_neutral_right]
+  exact cellD_mem _ _ a m c t hca
+
+/-- a column that only the RIGHT frame has: the result is `neutral op b[t, c]` — `b[t, c]` itself for `add_ / mul_`,
+`0 - b[t, c]` for `sub_`, `1 / b[t, c]` for `div_` (NaN where `b[t, c] = 0`) -/
+theorem oj_neutral_left (op : Op) (how : How) (m : Option Dir) (a b r : RFrame)
+    (ha : a.cols.length > 1) (hb : b.cols.length > 1) (h : binopF op how m .oj (.df a) (.df b) = .df r)
+    (c : String) (hca : c ∉ a.names) (hcb : c ∈ b.names) (t : Int) (ht : t ∈ r.idx) :
+    c ∈ r.names ∧ cellD Option.none r Option.none c t = op.appO (some op.neutral) (cellD Option.none b m c t) := by
+  have hc : c ∈ r.names := by
+    rcases binopF_columns op how m .oj a b ha hb with ⟨_, h1⟩ | ⟨_, r', h1, h2⟩
+    · rw [h1] at h; cases h
+    · rw [h1] at h; cases h; rw [h2, binopF_columns_oj]; exact .inr hcb
+  refine ⟨hc, ?_⟩
+  rw [binopF_cell op how m .oj a b r ha hb h c t hc ht, cellD_not_mem _ a m c t hca, cellD_mem _ Option.none b m c t hcb]
+
+theorem oj_neutral_left_add (how : How) (m : Option Dir) (a b r : RFrame)
+    (ha : a.cols.length > 1) (hb : b.cols.length > 1) (h : binopF .add how m .oj (.df a) (.df b) = .df r)
+    (c : String) (hca : c ∉ a.names) (hcb : c ∈ b.names) (t : Int) (ht : t ∈ r.idx) :
+    cellD Option.none r Option.none c t = cellD Option.none b m c t := by
+  rw [(oj_neutral_left .add how m a b r ha hb h c hca hcb t ht).2, appO_neutral_left_add]
+
+theorem oj_neutral_left_mul (how : How) (m : Option Dir) (a b r : RFrame)
+    (ha : a.cols.length > 1) (hb : b.cols.length > 1) (h : binopF .mul how m .oj (.df a) (.df b) = .df r)
+    (c : String) (hca : c ∉ a.names) (hcb : c ∈ b.names) (t : Int) (ht : t ∈ r.idx) :
+    cellD Option.none r Option.none c t = cellD Option.none b m c t := by
+  rw [(oj_neutral_left .mul how m a b r ha hb h c hca hcb t ht).2, appO_neutral_left_mul]
+
+/-- under `'ij'` no neutral element is ever used: every result column is a column of both frames -/
+theorem ij_no_neutral (a b : RFrame) (c : String) (hc : c ∈ frameCols .ij a b) (d d' : Option Rat) (m : Option Dir) (t : Int) :
+    cellD d a m c t = cellD d' a m c t ∧ cellD d b m c t = cellD d' b m c t := by
+  rw [binopF_columns_ij] at hc
+  exact ⟨cellD_mem _ _ a m c t hc.1, cellD_mem _ _ b m c t hc.2⟩
+
+/-! ### a frame with a Series or a scalar: the Series / scalar is broadcast to every column -/
+
+theorem binopF_frame_series (op : Op) (how : How) (m : Option Dir) (ch : ColHow) (a : RFrame) (s : RSeries) (ha : a.cols.length > 1) :
+    ∃ ix, joinIndex how [a.idx, s.idx] = some ix ∧
+      binopF op how m ch (.df a) (.ts s) =
+        .df { idx := ix, cols := a.names.map fun c => (c, ix.map fun t => op.appO (cellD (some op.neutral) a m c t) (lookR s m t)) } := by
+  obtain ⟨ix, hix⟩ := joinIndex_two how a.idx s.idx
+  refine ⟨ix, hix, ?_⟩
+  have h1 : indexesOfF [FOperand.df a, FOperand.ts s] = [a.idx, s.idx] := rfl
+  have h2 : multiNames [FOperand.df (reindexF a ix m), FOperand.ts (reindexR s ix m)] = [a.names] := by
+    simp [multiNames, reindexF_ncols, ha, reindexF_names]
+  simp only [binopF, h1, hix, alignF, kernelF, h2, resultCols_one]
+  cases hc : a.names with
+  | nil => exact absurd hc (names_ne_nil a ha)
+  | cons c cs =>
+    simp only
+    congr 2
+    apply List.map_congr_left
+    intro c' _
+    rw [col_value_ts op _ c' a s ix m ha]
+
+theorem binopF_series_frame (op : Op) (how : How) (m : Option Dir) (ch : ColHow) (a : RFrame) (s : RSeries) (ha : a.cols.length > 1) :
+    ∃ ix, joinIndex how [s.idx, a.idx] = some ix ∧
+      binopF op how m ch (.ts s) (.df a) =
+        .df { idx := ix, cols := a.names.map fun c => (c, ix.map fun t => op.appO (lookR s m t) (cellD (some op.neutral) a m c t)) } := by
+  obtain ⟨ix, hix⟩ := joinIndex_two how s.idx a.idx
+  refine ⟨ix, hix, ?_⟩
+  have h1 : indexesOfF [FOperand.ts s, FOperand.df a] = [s.idx, a.idx] := rfl
+  have h2 : multiNames [FOperand.ts (reindexR s ix m), FOperand.df (reindexF a ix m)] = [a.names] := by
+    simp [multiNames, reindexF_ncols, ha, reindexF_names]
+  simp only [binopF, h1, hix, alignF, kernelF, h2, resultCols_one]
+  cases hc : a.names with
+  | nil => exact absurd hc (names_ne_nil a ha)
+  | cons c cs =>
+    simp only
+    congr 2
+    apply List.map_congr_left
+    intro c' _
+    rw [col_value_ts' op _ c' a s ix m ha]
+
+theorem binopF_frame_scalar (op : Op) (how : How) (m : Option Dir) (ch : ColHow) (a : RFrame) (q : Option Rat) (ha : a.cols.length > 1) :
+    binopF op how m ch (.df a) (.num q) =
+      .df { idx := a.idx, cols := a.names.map fun c => (c, a.idx.map fun t => op.appO (cellD (some op.neutral) a m c t) q) } := by
+  have h1 : indexesOfF [FOperand.df a, FOperand.num q] = [a.idx] := rfl
+  have hix : joinIndex how [a.idx] = some a.idx := by cases how <;> rfl
+  have h2 : multiNames [FOperand.df (reindexF a a.idx m), FOperand.num q] = [a.names] := by
+    simp [multiNames, reindexF_ncols, ha, reindexF_names]
+  simp only [binopF, h1, hix, alignF, kernelF, h2, resultCols_one]
+  cases hc : a.names with
+  | nil => exact absurd hc (names_ne_nil a ha)
+  | cons c cs =>
+    simp only
+    congr 2
+    apply List.map_congr_left
+    intro c' _
+    rw [col_value_num op _ c' a q a.idx m ha]
+
+theorem binopF_scalar_frame (op : Op) (how : How) (m : Option Dir) (ch : ColHow) (a : RFrame) (q : Option Rat) (ha : a.cols.length > 1) :
+    binopF op how m ch (.num q) (.df a) =
+      .df { idx := a.idx, cols := a.names.map fun c => (c, a.idx.map fun t => op.appO q (cellD (some op.neutral) a m c t)) } := by
+  have h1 : indexesOfF [FOperand.num q, FOperand.df a] = [a.idx] := rfl
+  have hix : joinIndex how [a.idx] = some a.idx := by cases how <;> rfl
+  have h2 : multiNames [FOperand.num q, FOperand.df (reindexF a a.idx m)] = [a.names] := by
+    simp [multiNames, reindexF_ncols, ha, reindexF_names]
+  simp only [binopF, h1, hix, alignF, kernelF, h2, resultCols_one]
+  cases hc : a.names with
+  | nil => exact absurd hc (names_ne_nil a ha)
+  | cons c cs =>
+    simp only
+    congr 2
+    apply List.map_congr_left
+    intro c' _
+    rw [col_value_num' op _ c' a q a.idx m ha]
+
+/-- dividing a frame by the scalar 0 gives a NaN frame of the same shape (never ±inf; F10 for frames) -/
+theorem div_by_zero_scalar_frame (how : How) (m : Option Dir) (ch : ColHow) (a : RFrame) (ha : a.cols.length > 1) :
+    binopF .div how m ch (.df a) (.num (some 0)) =
+      .df { idx := a.idx, cols := a.names.map fun c => (c, a.idx.map fun _ => Option.none) } := by
+  rw [binopF_frame_scalar .div how m ch a (some 0) ha]
+  congr 2
+  apply List.map_congr_left
+  intro c _
+  congr 1
+  apply List.map_congr_left
+  intro t _
+  cases cellD (some (Op.neutral .div)) a m c t <;> simp [Op.appO, Op.app]
+
+/-- on Series and scalars the frame-aware operator is the operator of `PygModel/Ops.lean` (all theorems above apply) -/
+theorem binopF_refines (op : Op) (how : How) (m : Option Dir) (ch : ColHow) (a b : Operand) :
+    binopF op how m ch (.ofOperand a) (.ofOperand b) = .ofOperand (binop op how m a b) := by
+  cases a <;> cases b <;> cases how <;>
+    simp [binopF, binop, FOperand.ofOperand, indexesOfF, indexesOf, joinIndex, alignAll, alignF, kernelF, multiNames, resultCols,
+      colArg, isDf, kernel]
+
+/-! ### commutativity on frames -/
+
+theorem binopF_comm_aux (op : Op) (hop : ∀ x y, op.appO x y = op.appO y x) (how : How) (hh : how = .inner ∨ how = .outer)
+    (m : Option Dir) (ch : ColHow) (a b : RFrame)
+    (ha : a.cols.length > 1) (hb : b.cols.length > 1) (sa : SortedL a.idx) (sb : SortedL b.idx) :
+    binopF op how m ch (.df a) (.df b) = binopF op how m ch (.df b) (.df a) := by
+  obtain ⟨ix, h1, h2⟩ := binopF_value op how m ch a b ha hb
+  obtain ⟨ix', h1', h2'⟩ := binopF_value op how m ch b a hb ha
+  have hj : joinIndex how [a.idx, b.idx] = joinIndex how [b.idx, a.idx] := by
+    rcases hh with rfl | rfl
+    · exact joinIndex_comm_inner _ _ sa sb
+    · exact joinIndex_comm_outer _ _ sa sb
+  rw [hj, h1'] at h1
+  cases h1
+  rw [h2, h2', frameCols_comm ch b a]
+  split
+  · rfl
+  · congr 2
+    apply List.map_congr_left
+    intro c _
+    congr 1
+    apply List.map_congr_left
+    intro t _
+    exact hop _ _
+
+/-- `add_` and `mul_` are commutative on frames (sorted indices; index policies inner / outer; both column policies;
+any fill method): same header, same index, same cells -/
+theorem add_comm_frames (how : How) (hh : how = .inner ∨ how = .outer) (m : Option Dir) (ch : ColHow) (a b : RFrame)
+    (ha : a.cols.length > 1) (hb : b.cols.length > 1) (sa : SortedL a.idx) (sb : SortedL b.idx) :
+    binopF .add how m ch (.df a) (.df b) = binopF .add how m ch (.df b) (.df a) :=
+  binopF_comm_aux .add appO_comm_add how hh m ch a b ha hb sa sb
+
+theorem mul_comm_frames (how : How) (hh : how = .inner ∨ how = .outer) (m : Option Dir) (ch : ColHow) (a b : RFrame)
+    (ha : a.cols.length > 1) (hb : b.cols.length > 1) (sa : SortedL a.idx) (sb : SortedL b.idx) :
+    binopF .mul how m ch (.df a) (.df b) = binopF .mul how m ch (.df b) (.df a) :=
+  binopF_comm_aux .mul appO_comm_mul how hh m ch a b ha hb sa sb
+
+/-! ### lists of frames reduce left to right -/
+
+theorem reduce_left_frames (op : Op) (hop : op = .add ∨ op = .mul) (how : How) (m : Option Dir) (ch : ColHow)
+    (x : FOperand) (xs ys : List FOperand) :
+    opListF op how m ch (x :: xs) ys = some ((xs ++ ys).foldl (binopF op how m ch) x) := by
+  rcases hop with rfl | rfl <;> rfl
+
+theorem reduce_sub_frames (how : How) (m : Option Dir) (ch : ColHow) (x y : FOperand) (xs ys : List FOperand) :
+    opListF .sub how m ch (x :: xs) (y :: ys) =
+      some (binopF .sub how m ch (xs.foldl (binopF .add how m ch) x) (ys.foldl (binopF .add how m ch) y)) := rfl
+
+theorem reduce_div_frames (how : How) (m : Option Dir) (ch : ColHow) (x y : FOperand) (xs ys : List FOperand) :
+    opListF .div how m ch (x :: xs) (y :: ys) =
+      some (binopF .div how m ch (xs.foldl (binopF .mul how m ch) x) (ys.foldl (binopF .mul how m ch) y)) := rfl
+
 /-! ### non-vacuity and evaluation checks
 (`Rat` arithmetic does not reduce in the kernel, so concrete results are `#guard` evaluation tests, not theorems) -/
 
